@@ -240,7 +240,11 @@ def main(ck, tier, w):
         coin = r0.choice(['bitcoin', 'bitcoin', 'litecoin', 'dogecoin'])
         blocks, prev = [], b'\0' * 32
         for h in range(n):
-            txs = [btc.coinbase(h, None, outs=[{'val': r0.choice([50 * 10 ** 8, 50 * 10 ** 8 + 12345, 10 ** 8, 2 ** 40]), 'spk': spk(r0.choice(list(LABEL)), r0)}])]
+            cbv = r0.choice([50 * 10 ** 8, 50 * 10 ** 8 + 12345, 10 ** 8, 2 ** 40])
+            if i % 3 == 0 and h == n // 2:
+                # one value in the upper half of the u64 range per chain (the total volume stays below 2^64)
+                cbv = [2 ** 63, 2 ** 63 + 25 * 10 ** 8, 0x9000000000000000, 2 ** 64 - 2 ** 58][(i // 3) % 4]
+            txs = [btc.coinbase(h, None, outs=[{'val': cbv, 'spk': spk(r0.choice(list(LABEL)), r0)}])]
             for k in range(r0.randrange(0, 4)):
                 # sizes on both sides of the CompactSize boundaries, so that a size computed from field widths must get them right;
                 # neighbouring transactions differ by single bytes, so that an error of 1-2 bytes changes which one is biggest
